@@ -489,7 +489,10 @@ class SpecMixin:
         for name, sort in self.arrays_of(sv.ty, pre):
             old = st.arr(name, sort)
             fresh = z3.Const(fresh_name(name + "_at"), sort.range())
-            st.set_arr(name, z3.Store(old, sv.t, fresh), sv.t)
+            upd = z3.Store(old, sv.t, fresh)
+            if sv.none is not None:
+                upd = z3.If(sv.none, old, upd)  # an absent (None) argument names no object
+            st.set_arr(name, upd, sv.t)
             self.canon_assume(name, st.arr(name, sort), st, ref=sv.t)
 
     def canon_assume(self, name, arr, st, ref=None):
@@ -511,7 +514,10 @@ class SpecMixin:
         k = z3.Const(fresh_name("k"), ks)
         dflt = default_of(vs) if not name.split(".")[2] == "ref" else z3.IntVal(-1)
         if ref is not None:
-            st.assume(z3.ForAll([k], z3.Implies(z3.Not(dom[ref][k]), arr[ref][k] == dflt), patterns=[arr[ref][k]]))
+            try:
+                st.assume(z3.ForAll([k], z3.Implies(z3.Not(dom[ref][k]), arr[ref][k] == dflt), patterns=[arr[ref][k]]))
+            except z3.Z3Exception:
+                st.assume(z3.ForAll([k], z3.Implies(z3.Not(dom[ref][k]), arr[ref][k] == dflt)))
         else:
             r = z3.Int(fresh_name("r"))
             st.assume(z3.ForAll([r, k], z3.Implies(z3.Not(dom[r][k]), arr[r][k] == dflt), patterns=[arr[r][k]]))
